@@ -127,7 +127,11 @@ class RibCtx(BaseCtx):
         if not nl and not wd:
             nl = [rng.pick(PREFIXES)]
         attrs = self.attrs_for(rng.randrange(3), False) if nl else {}
-        return rp.encode_update(wd, attrs, nl, as4=self.as4)
+        dirty = None
+        if rng.chance(0.25):
+            dirty = rng.pick([0xFF, 0x55, 0x01])      # padding bits of the prefixes are not zero
+            self.stats["gen:prefixes_with_nonzero_padding"] += 1
+        return rp.encode_update(wd, attrs, nl, as4=self.as4, dirty=dirty)
 
     def base_attr_bytes(self):
         return rp.encode_attrs({"origin": 0, "as_path": [(2, [self.cfg["remote_as"]])]}, self.as4)
@@ -182,6 +186,9 @@ class RibCtx(BaseCtx):
         if nl:
             i = rng.randrange(3)
             b["attr"] = {"1": ATTRSETS[i]["origin"], "2": [[2, ATTRSETS[i]["path"]]], "3": "10.0.0.1", "5": 100 + i}
+            if rng.chance(0.4):
+                del b["attr"]["5"]          # the default LOCAL_PREF (iBGP) is then filled in by the API
+                self.stats["gen:rest_announce_without_local_pref"] += 1
             b["nlri"] = nl
         if wd:
             b["withdraw"] = wd
@@ -380,7 +387,9 @@ class RibCtx(BaseCtx):
         return keys
 
     def on_tx_update(self, body, v_before, v_after):
-        attr = body.get("attr") or {}
+        attr = dict(body.get("attr") or {})
+        if attr and "5" not in attr and self.cfg["local_as"] == self.cfg["remote_as"]:
+            attr["5"] = 100          # documented default LOCAL_PREF on iBGP sessions
         fam_changed = {"ipv4": False, "flowspec": False, "mpls_vpn": False}
         if "14" in attr or "15" in attr:
             code = "14" if "14" in attr else "15"
@@ -459,7 +468,7 @@ class RibProfile(BaseProfile):
             "attributes, several routes per message, withdraw of absent routes), REST send/update for the sent side (IPv4, "
             "flowspec, VPNv4), adj-rib-in/out queries, session drops (close, reset, NOTIFICATION, operator stop) and "
             "re-establishment; non-trivial = reached Established; distinct = distinct (op, state) sequence")
-    probes = ["gen:mixed_mp_and_ipv4_updates", "rx_ipv4_updates", "rx_flowspec_updates", "rx_mpls_vpn_updates", "tx_ipv4_updates", "tx_flowspec_updates",
+    probes = ["gen:prefixes_with_nonzero_padding", "gen:rest_announce_without_local_pref", "gen:mixed_mp_and_ipv4_updates", "rx_ipv4_updates", "rx_flowspec_updates", "rx_mpls_vpn_updates", "tx_ipv4_updates", "tx_flowspec_updates",
               "tx_mpls_vpn_updates", "session_drops", "withdraw_of_absent_route", "reannounce_same_attrs",
               "reannounce_changed_attrs", "rib_queries", "version_should_increase:rx:flowspec",
               "version_should_increase:rx:mpls_vpn", "version_should_increase:tx:flowspec"]
@@ -470,7 +479,7 @@ class RibProfile(BaseProfile):
         cfg["afi_safi"] = ["ipv4", "flowspec"]   # ("vpnv4" cannot be configured: get_bgp_config fails on ext_nexthop)
         cfg["call_later"] = 0
         cfg["idle_hold_time"] = 1
-        if rng.chance(0.3):
+        if rng.chance(0.45):
             cfg["local_as"] = cfg["remote_as"] = 65001
         if rng.chance(0.3):
             cfg["four_bytes_as"] = False
